@@ -39,6 +39,14 @@ func (c C) Guards(fnName, construct string, in ssa.Instruction, gs ...G) bool {
 	return all
 }
 
+// GuardsS is Guards for a write taken from the store index: a write inside a helper that several
+// sites share is judged at the call site it is attributed to.
+func (c C) GuardsS(fnName, construct string, s ir.Store, gs ...G) bool {
+	ok := false
+	ir.AtSite(s.Site, func() { ok = c.Guards(fnName, construct, s.Instr, gs...) })
+	return ok
+}
+
 func short(s string, n int) string {
 	if len(s) > n {
 		return s[:n] + "…"
